@@ -86,6 +86,7 @@ struct KBase
     template <class W, class P> static void assign_vw(W&, int, bool, P*) {}
     template <class PT> static decltype(auto) ptr_prim(PT& p) { return *p; }
     template <class W> static W& copy_src(W& w) { return w; }
+    template <class W, class F> static void reads_lv_copying(W&, F&&) {}
     template <class P> struct in_design : std::true_type {};   // payload types the design enumerates for this kind
 };
 
@@ -111,19 +112,18 @@ struct K_closure : KBase
     template <class S, class WD> static auto wrap(S&& s, WD&, int, std::false_type) { return xtl::closure(std::forward<S>(s)); }
     template <class S, class WD> static auto wrap(S&& s, WD& wd, int which) { return wrap(std::forward<S>(s), wd, which, bool_<CONSTK>()); }
     template <class W> static decltype(auto) prim(W& w) { return w.get(); }
-    template <class W, class F> static void reads(W& w, F&& f, std::true_type /*copy ok*/)
+    template <class W, class F> static void reads_lv(W& w, F&& f)
     {
         OBS(w.get());
         OBS(cst(w).get());
-        OBS(std::move(w).get());
+    }
+    template <class W, class F> static void reads_lv_copying(W& w, F&& f)   // lvalue conversions: by value for value closures
+    {
         OBS(static_cast<typename W::closure_type>(w));
         OBS(static_cast<typename W::const_closure_type>(cst(w)));
     }
-    template <class W, class F> static void reads(W& w, F&& f, std::false_type)
-    {
-        OBS(w.get());
-        OBS(cst(w).get());
-    }
+    static const int n_rv = 1;
+    template <class W, class F> static void read_rv(W& w, F&& f, int) { OBS(std::move(w).get()); }
     template <class PT> static decltype(auto) ptr_prim(PT& p) { return *p; }
 };
 
@@ -145,12 +145,19 @@ struct K_cptr : KBase
     template <class S, class WD> static auto wrap(S&& s, WD&, int, std::false_type) { return xtl::closure_pointer(std::forward<S>(s)); }
     template <class S, class WD> static auto wrap(S&& s, WD& wd, int which) { return wrap(std::forward<S>(s), wd, which, bool_<CONSTK>()); }
     template <class W> static decltype(auto) prim(W& w) { return *w; }
-    template <class W, class F, class B> static void reads(W& w, F&& f, B)
+    template <class W, class F> static void reads_lv(W& w, F&& f)
     {
         OBS(*w);
         OBS(*cst(w));
         OBS(*(w.operator->()));
         OBS(*(cst(w).operator->()));
+    }
+    static const int n_rv = 3;
+    template <class W, class F> static void read_rv(W& w, F&& f, int i)   // always references (into the pointer object for an owner)
+    {
+        if (i == 0) OBS(*std::move(w));
+        else if (i == 1) OBS(*std::move(cst(w)));
+        else OBS(*(std::move(w).operator->()));
     }
     template <class W, class V> static void assign(W& w, V&& v) { *w = std::forward<V>(v); }
 };
@@ -170,11 +177,13 @@ struct K_proxy : KBase
     template <class S, class WD> static auto wrap(S&& s, WD&, int) { return xtl::proxy_wrapper(std::forward<S>(s)); }
     // xclosure_wrapper flavour
     template <class CT> static decltype(auto) prim(xtl::xclosure_wrapper<CT>& w) { return w.get(); }
-    template <class CT, class F> static void reads(xtl::xclosure_wrapper<CT>& w, F&& f, std::true_type) { OBS(w.get()); OBS(cst(w).get()); OBS(std::move(w).get()); }
-    template <class CT, class F> static void reads(xtl::xclosure_wrapper<CT>& w, F&& f, std::false_type) { OBS(w.get()); OBS(cst(w).get()); }
+    template <class CT, class F> static void reads_lv(xtl::xclosure_wrapper<CT>& w, F&& f) { OBS(w.get()); OBS(cst(w).get()); }
+    static const int n_rv = 1;
+    template <class CT, class F> static void read_rv(xtl::xclosure_wrapper<CT>& w, F&& f, int) { OBS(std::move(w).get()); }
+    template <class Q, class F> static void read_rv(xtl::xproxy_wrapper_impl<Q>& w, F&& f, int) { OBS(static_cast<const std::remove_const_t<Q>&>(std::move(w))); }
     // xproxy_wrapper_impl flavour: the wrapper IS the payload (public base)
     template <class Q> static std::remove_const_t<Q>& prim(xtl::xproxy_wrapper_impl<Q>& w) { return static_cast<std::remove_const_t<Q>&>(w); }
-    template <class Q, class F, class B> static void reads(xtl::xproxy_wrapper_impl<Q>& w, F&& f, B)
+    template <class Q, class F> static void reads_lv(xtl::xproxy_wrapper_impl<Q>& w, F&& f)
     {
         OBS(static_cast<const std::remove_const_t<Q>&>(w));
         OBS(static_cast<const std::remove_const_t<Q>&>(cst(w)));
@@ -199,21 +208,19 @@ struct K_opt : KBase
     template <class S, class WD> static auto wrap(S&& s, WD&, int, std::false_type) { return xtl::optional(std::forward<S>(s), true); }
     template <class S, class WD> static auto wrap(S&& s, WD& wd, int which) { return wrap(std::forward<S>(s), wd, which, bool_<FLAG_LVALUE>()); }
     template <class W> static decltype(auto) prim(W& w) { return w.value(); }
-    template <class W, class F> static void reads(W& w, F&& f, std::true_type)
+    template <class W, class F> static void reads_lv(W& w, F&& f)
     {
         OBS(w.value());
         OBS(cst(w).value());
-        OBS(std::move(w).value());
-        OBS(std::move(cst(w)).value());
         OBS(xtl::value(w));
         OBS(xtl::value(cst(w)));
-        OBS(xtl::value(std::move(w)));
     }
-    template <class W, class F> static void reads(W& w, F&& f, std::false_type)
+    static const int n_rv = 3;
+    template <class W, class F> static void read_rv(W& w, F&& f, int i)
     {
-        OBS(w.value());
-        OBS(cst(w).value());
-        OBS(xtl::value(w));
+        if (i == 0) OBS(std::move(w).value());
+        else if (i == 1) OBS(std::move(cst(w)).value());
+        else OBS(xtl::value(std::move(w)));
     }
     template <class W> static void swap(W& a, W& b) { a.swap(b); }
     template <class PT> static decltype(auto) ptr_prim(PT& p) { return (*p).value(); }
@@ -249,15 +256,19 @@ struct K_optf : KBase
     };
     template <class S, class WD> static auto wrap(S&& s, WD& wd, int which) { return xtl::optional(which ? wd.vy : wd.vx, std::forward<S>(s)); }
     template <class W> static decltype(auto) prim(W& w) { return w.has_value(); }
-    template <class W, class F, class B> static void reads(W& w, F&& f, B)
+    template <class W, class F> static void reads_lv(W& w, F&& f)
     {
         OBS(w.has_value());
         OBS(cst(w).has_value());
-        OBS(std::move(w).has_value());
-        OBS(std::move(cst(w)).has_value());
         OBS(xtl::has_value(w));
         OBS(xtl::has_value(cst(w)));
-        OBS(xtl::has_value(std::move(w)));
+    }
+    static const int n_rv = 3;
+    template <class W, class F> static void read_rv(W& w, F&& f, int i)
+    {
+        if (i == 0) OBS(std::move(w).has_value());
+        else if (i == 1) OBS(std::move(cst(w)).has_value());
+        else OBS(xtl::has_value(std::move(w)));
     }
     template <class W, class V> static void assign(W& w, V&& v) { w.has_value() = std::forward<V>(v); }
     template <class W> static void swap(W& a, W& b) { a.swap(b); }
@@ -287,17 +298,16 @@ struct K_mask : KBase
     template <class S, class WD> static auto wrap(S&& s, WD&, int, std::false_type) { return xtl::masked_value(std::forward<S>(s), true); }
     template <class S, class WD> static auto wrap(S&& s, WD& wd, int which) { return wrap(std::forward<S>(s), wd, which, bool_<FLAG_LVALUE>()); }
     template <class W> static decltype(auto) prim(W& w) { return w.value(); }
-    template <class W, class F> static void reads(W& w, F&& f, std::true_type)
+    template <class W, class F> static void reads_lv(W& w, F&& f)
     {
         OBS(w.value());
         OBS(cst(w).value());
-        OBS(std::move(w).value());
-        OBS(std::move(cst(w)).value());
     }
-    template <class W, class F> static void reads(W& w, F&& f, std::false_type)
+    static const int n_rv = 2;
+    template <class W, class F> static void read_rv(W& w, F&& f, int i)
     {
-        OBS(w.value());
-        OBS(cst(w).value());
+        if (i == 0) OBS(std::move(w).value());
+        else OBS(std::move(cst(w)).value());
     }
     template <class W, class P> static void assign_vw(W& w, int v, bool, P*)
     {
@@ -335,12 +345,16 @@ struct K_maskf : KBase
     };
     template <class S, class WD> static auto wrap(S&& s, WD& wd, int which) { return xtl::masked_value(which ? wd.vy : wd.vx, std::forward<S>(s)); }
     template <class W> static decltype(auto) prim(W& w) { return w.visible(); }
-    template <class W, class F, class B> static void reads(W& w, F&& f, B)
+    template <class W, class F> static void reads_lv(W& w, F&& f)
     {
         OBS(w.visible());
         OBS(cst(w).visible());
-        OBS(std::move(w).visible());
-        OBS(std::move(cst(w)).visible());
+    }
+    static const int n_rv = 2;
+    template <class W, class F> static void read_rv(W& w, F&& f, int i)
+    {
+        if (i == 0) OBS(std::move(w).visible());
+        else OBS(std::move(cst(w)).visible());
     }
     template <class W, class V> static void assign(W& w, V&& v) { w.visible() = std::forward<V>(v); }
     template <class W> static void swap(W& a, W& b) { a.swap(b); }
@@ -379,12 +393,16 @@ struct K_cplx : KBase
     template <class W> static decltype(auto) part(W&& w, std::false_type) { return std::forward<W>(w).real(); }
     template <class W> static decltype(auto) part(W&& w, std::true_type) { return std::forward<W>(w).imag(); }
     template <class W> static decltype(auto) prim(W& w) { return part(w, bool_<IMAG>()); }
-    template <class W, class F, class B> static void reads(W& w, F&& f, B)
+    template <class W, class F> static void reads_lv(W& w, F&& f)
     {
         OBS(part(w, bool_<IMAG>()));
         OBS(part(cst(w), bool_<IMAG>()));
-        OBS(part(std::move(w), bool_<IMAG>()));
-        OBS(part(std::move(cst(w)), bool_<IMAG>()));
+    }
+    static const int n_rv = 2;
+    template <class W, class F> static void read_rv(W& w, F&& f, int i)
+    {
+        if (i == 0) OBS(part(std::move(w), bool_<IMAG>()));
+        else OBS(part(std::move(cst(w)), bool_<IMAG>()));
     }
     template <class W, class V> static void assign(W& w, V&& v, std::false_type) { w = std::forward<V>(v); }
     template <class W, class V> static void assign(W& w, V&& v, std::true_type) { w.imag() = std::forward<V>(v); }
@@ -684,25 +702,49 @@ struct Run
     }
 
     // ---- the operations -----------------------------------------------------------------
-    void do_read(W& w, const H& h)
+    // READ: the lvalue accessors observe the live wrapper. The &&-qualified accessors (and anything else that treats the wrapper as an
+    // rvalue) MAY CONSUME an owning wrapper (std::optional-style value() && moves the owned value out), so for an owner each of them is
+    // applied to a fresh copy made for that one observation and only the RETURNED value is judged. For a wrapper built from an lvalue
+    // they are applied to the live wrapper: an rvalue wrapper gives no right to move from the referent, and the checks that follow
+    // (originals against the model) decide that.
+    template <class WW>
+    void observe(WW& target, const H& h, bool rvalue_forms, int form)
     {
-        if (h.moved) return;
-        const void* expect_addr = &K::prim(w);
+        const void* expect_addr = &K::prim(target);
         int expect_val = cells[h.cell].val;
         bool spec = cells[h.cell].spec;
         Run* self = this;
-        auto f = [self, expect_addr, expect_val, spec, &h](const char* what, const P& r, bool is_lv) {
+        auto f = [self, expect_addr, expect_val, spec](const char* what, const P& r, bool is_lv) {
             if (self->failed) return;
             if (is_lv && static_cast<const void*>(&r) != expect_addr)
                 self->fail("accessor-designation", std::string(what) + " returns a reference to a different object than get()/value()");
-            else if (!is_lv && h.alias && tracked<P>::value && false)
-                ;
             int got = rd(r);
             if (!self->failed && spec && got != expect_val)
                 self->fail("wrong-value", std::string(what) + " reads " + vf::str(got) + ", expected " + vf::str(expect_val));
             self->mix(got);
         };
-        K::reads(w, f, bool_<copyable<P>::value || Cat::lvalue>());
+        if (!rvalue_forms)
+        {
+            K::reads_lv(target, f);
+            static_if(bool_<copyable<P>::value || Cat::lvalue>(), [&](auto& t_) { K::reads_lv_copying(t_, f); }, target);
+        }
+        else
+            static_if(bool_<copyable<P>::value || Cat::lvalue>(), [&](auto& t_) { K::read_rv(t_, f, form); }, target);
+    }
+
+    void do_read(W& w, const H& h)
+    {
+        if (h.moved) return;
+        observe(w, h, false, 0);
+        for (int i = 0; i < K::n_rv && !failed; ++i)
+        {
+            if (h.alias) observe(w, h, true, i);
+            else
+                static_if(bool_<caps::copy_cons>(), [&](auto& w_) {
+                    std::remove_reference_t<decltype(w_)> t(K::copy_src(w_));   // consumed by the observation
+                    this->observe(t, h, true, i);
+                }, w);
+        }
     }
 
     void note_write(int c, int v)
